@@ -135,7 +135,7 @@ PROPS = {
              "shape, reported level/mode/version/mask, length class); every tuple pins one configuration cell.",
         trusted=COMMON_TRUST, assumptions=["Spec.Decode is the ISO reference decoding without error correction (exact agreement required)"]),
     "C02": dict(
-        module="FastQr.Props.C02", more_modules=["FastQr.Props.C02Syn", "FastQr.Props.C02Built"], level="proof", key=key_build,
+        module="FastQr.Props.C02", more_modules=["FastQr.Props.C02Syn", "FastQr.Props.C02Built", "FastQr.Props.C02Order"], level="proof", key=key_build,
         rule="cases: `ustructure`: polynomials::structure through its hook on ARBITRARY data buffers for the (version, level) layouts "
              "(spec verdict: Table 9 de-interleaving returns the buffer, all syndromes zero, the codeword after the last is 0); and builds as C01; spec verdict = Table 9 block split of the read-out codewords, zero remainder bits, all syndromes "
              "alpha^0..alpha^(ec-1) zero in every block. distinct as C01.",
